@@ -104,9 +104,12 @@ type op10 struct {
 	Fault  string `json:"fault,omitempty"`  // "", error, revert, plus, minus, noop
 	NoKey  bool   `json:"no_key,omitempty"` // toerc20: the EVM does not support the receiver's key type
 	Enable bool   `json:"enable,omitempty"`
-	Parts  int    `json:"parts,omitempty"`  // tonative: the EVM transaction calls swapToNative this many times (one log each)
-	Sym    string `json:"sym,omitempty"`    // deploy: symbol (and name) of the message; "" = the token's own / default symbol
-	DScale int    `json:"dscale,omitempty"` // deploy: scale of the message + 1; 0 = the token's own / default scale
+	Parts  int    `json:"parts,omitempty"` // tonative: the EVM transaction calls swapToNative this many times (one log each)
+	// tonative: the same EVM transaction also touches a contract that is not bound to any token and emits
+	// SwapToNative-shaped events of its own: Foreign of them, placed before (negative) or after the first real log
+	Foreign int    `json:"foreign,omitempty"`
+	Sym     string `json:"sym,omitempty"`    // deploy: symbol (and name) of the message; "" = the token's own / default symbol
+	DScale  int    `json:"dscale,omitempty"` // deploy: scale of the message + 1; 0 = the token's own / default scale
 }
 
 type m10 struct {
@@ -334,6 +337,7 @@ func (m *m10) Next(t *rapid.T) op10 {
 			op.Amount = "0"
 		}
 		op.Parts = rapid.SampledFrom([]int{1, 1, 1, 2, 3}).Draw(t, "parts")
+		op.Foreign = rapid.SampledFrom([]int{0, 0, 0, 1, 2, 3, -1, -2}).Draw(t, "foreign")
 		return op
 	case k < 78: // plain native mint / burn by the owner (legitimate changes of the sum)
 		op := op10{Kind: rapid.SampledFrom([]string{"mint", "burn"}).Draw(t, "mb"), Tok: rapid.SampledFrom([]int{0, 1, 2, 5, 6, 7, 8}).Draw(t, "tok")}
@@ -706,6 +710,15 @@ func (m *m10) Apply(op op10) error {
 					return fmt.Errorf("evm: execution reverted")
 				}
 				receipt.Logs = append(receipt.Logs, r.Logs...)
+				if i == 0 && op.Foreign > 0 {
+					receipt.Logs = append(receipt.Logs, foreignLogs(holder, toStr, op.Foreign)...)
+				}
+			}
+			if op.Foreign < 0 {
+				receipt.Logs = append(foreignLogs(holder, toStr, -op.Foreign), receipt.Logs...)
+			}
+			if op.Foreign != 0 {
+				m.cls["tonative-with-foreign-contract-logs"] = true
 			}
 			if parts > 1 {
 				m.cls["tonative-multi-log"] = true
@@ -1066,5 +1079,15 @@ const c10Rule = "rapid state machine on the K-driver with the transactional harn
 	"balances and by shape up to 2^128; non-trivial = history with a failed conversion after at least one successful conversion; distinct by SHA-256 of the op list"
 
 func init() { pbt.RegisterMachine("c10", newC10) }
+
+// foreignLogs are n consecutive SwapToNative-shaped events of one contract that is bound to no token, naming the same
+// receiver and large amounts.
+func foreignLogs(from common.Address, to string, n int) []*ethtypes.Log {
+	var out []*ethtypes.Log
+	for i := 0; i < n; i++ {
+		out = append(out, evm.ForeignSwapToNativeLog(common.HexToAddress("0x00000000000000000000000000000000000f0e16"), from, to, big.NewInt(1_000_000+int64(i))))
+	}
+	return out
+}
 
 func TestC10(t *testing.T) { pbt.RunMachine(t, "C10", "c10", c10Rule, newC10) }
